@@ -72,7 +72,6 @@ inductive Ask where
   | x509Parse (der : Bytes)
   | x509CheckSig (der : Bytes) (alg : Nat) (msg sig : Bytes)
   | tpmHashes                                            -- which TPM hash algorithms are linked in: (TPM_ALG_ID, crypto.Hash id) pairs
-  | sanView (certDer : Bytes)                            -- the SAN extensions of the certificate as encoding/asn1 parses them
   | safetyNet (raw : Bytes)                              -- parse + chain validation + claims
   | jwsHeaders (raw : Bytes)                             -- jwt.ParseSigned: number of signatures/headers
   | jwsChain (raw : Bytes) (i : Nat) (pool : Nat)        -- Headers[i].Certificates(Roots: pool): leaf of the first chain
@@ -95,7 +94,6 @@ inductive Resp where
   | cert (c : CertView)
   | hashTable (t : List (Nat × Nat))
   | safetyNet (s : SafetyNetView)
-  | san (exts : List Tpm.SanExt)
   deriving Repr, DecidableEq, Inhabited
 
 inductive Prog (α : Type) where
